@@ -239,6 +239,13 @@ func TestC08(t *testing.T) {
 			run(shard*1000000+i+1, b, qs, rng, fmt.Sprintf("incomplete-revocation seed=%d", s))
 			continue
 		}
+		if rng.Chance(30) {
+			// chains of policy states with forged / rolled-back successors inside the verified range:
+			// a cache that lists such an entry must not make verification skip it
+			b, qs, meta := c02Build(t, s)
+			run(shard*1000000+i+1, b, qs, rng, "policy-chain "+meta)
+			continue
+		}
 		if rng.Chance(45) {
 			// recovery patterns (revoked violations, incomplete revocations, fixes): the checkpoints
 			// written on the way are what the cache configurations then start from
